@@ -1,0 +1,51 @@
+//go:build verif
+
+// Contracts for the watermill verification harness (/verif, tool "gowp").
+// Comment-only: with the build tag off this file is not compiled, with it on it adds no code.
+
+package forwarder
+
+//@ spec envTopic(b string) string := jsonfield(b, "forwarder.messageEnvelope", "DestinationTopic")
+//@ spec envUUID(b string) string := jsonfield(b, "forwarder.messageEnvelope", "UUID")
+//@ spec envPayload(b string) string := jsonbytes(b, "forwarder.messageEnvelope", "Payload")
+//@ spec envCarries(b string, t string, m *message.Message) bool := envTopic(b) == t && envUUID(b) == m.UUID && envPayload(b) == bytes(m.Payload) && (forall k string :: jsonhas(b, "forwarder.messageEnvelope", "Metadata", k) == has(m.Metadata, k) && (has(m.Metadata, k) ==> jsonval(b, "forwarder.messageEnvelope", "Metadata", k) == m.Metadata[k]))
+
+//@ func (*messageEnvelope).validate
+//@   requires e != nil
+//@   nopanic
+//@   ensures (result == nil) == (e.DestinationTopic != "") [valid-iff-topic-non-empty]
+
+//@ func newMessageEnvelope
+//@   requires msg != nil
+//@   nopanic
+//@   ensures (result1 == nil) == (destTopic != "") [fails-iff-topic-empty]
+//@   ensures result1 != nil ==> result0 == nil
+//@   ensures result1 == nil ==> result0 != nil && fresh(result0) && result0.DestinationTopic == destTopic && result0.UUID == msg.UUID && result0.Payload == msg.Payload && result0.Metadata == msg.Metadata [every-field-handed-over]
+
+//@ func wrapMessageInEnvelope
+//@   requires msg != nil
+//@   nopanic
+//@   ensures destinationTopic == "" ==> result1 != nil [empty-topic-refused]
+//@   ensures result1 != nil ==> result0 == nil
+//@   ensures result1 == nil ==> destinationTopic != "" && result0 != nil && fresh(result0) && envCarries(bytes(result0.Payload), destinationTopic, msg) && result0.ctx == ctxOf(msg) [envelope-carries-topic-uuid-payload-metadata]
+
+//@ func unwrapMessageFromEnvelope
+//@   requires msg != nil
+//@   nopanic
+//@   ensures err != nil ==> unwrappedMsg == nil && destinationTopic == "" [error-yields-nothing]
+//@   ensures err == nil ==> destinationTopic != "" && unwrappedMsg != nil && fresh(unwrappedMsg) && envCarries(bytes(msg.Payload), destinationTopic, unwrappedMsg) && unwrappedMsg.ctx == ctxOf(msg) && unwrappedMsg.ackSentType == 0 [message-rebuilt-from-the-envelope]
+
+//@ func lemmaEnvelopeRoundTrip
+//@   requires m != nil
+//@   nopanic
+//@   ensures result == true [unwrap-after-wrap-is-the-identity]
+
+//@ func (*Forwarder).forwardMessage
+//@   requires f != nil && msg != nil && f.publisher != nil
+//@   callee P = f.publisher.Publish
+//@   ensures bytes(msg.Payload) == old(bytes(msg.Payload)) [consumed-message-untouched]
+//@   ensures result == nil && calls(P) == old(calls(P)) ==> f.config.AckWhenCannotUnwrap [ack-without-forwarding-only-when-configured]
+//@   ensures calls(P) <= old(calls(P)) + 1 [forwards-at-most-once]
+//@   ensures calls(P) == old(calls(P)) + 1 ==> arg(P, 0, old(calls(P))) != "" && len(arg(P, 1, old(calls(P)))) == 1 && envCarries(bytes(msg.Payload), arg(P, 0, old(calls(P))), arg(P, 1, old(calls(P)))[0]) [forwards-the-enveloped-message-to-its-destination]
+//@   ensures calls(P) == old(calls(P)) + 1 ==> ((result == nil) == (ret(P, 0, old(calls(P))) == nil)) [ack-iff-destination-accepted]
+//@   panics-ensures calls(P) == old(calls(P)) + 1 && panicked(P, old(calls(P))) [only-the-publisher-panics]
